@@ -457,9 +457,14 @@ def _respell(R, rng, ep, args, kwargs, fn, bool_ret, limit):
                 return
         if not same:
             w = {"ep": ep, "args": a2, "kwargs": k2}
-            R.fail(f"{ep}:spelling-differs", "spell",
-                   f"{ep} answers {base[1]} for the {base[0]} spelling and {outcome} for the {name} spelling of the same "
-                   f"content ({'different values' if outcome == 'ok' == base[1] else 'accepted vs refused'}) on {G.short(w)}", w)
+            if outcome == "ok" == base[1]:
+                # accepted in both spellings with DIFFERENT values: a finding
+                R.fail(f"{ep}:spelling-differs", "spell",
+                       f"{ep} accepts the {base[0]} and the {name} spelling of the same content with different values on {G.short(w)}", w)
+            else:
+                # accepted in one spelling, refused (library exception) in another: a str is text, bytes are exact --
+                # not what the property asks; kept as a statistic
+                R.counts[("spell.accepted-vs-refused", ep, "noted")] = R.counts.get(("spell.accepted-vs-refused", ep, "noted"), 0) + 1
 
 
 def _call_spec(R: Recorder, stream: str, ep: str, args, kwargs=None, *, fn=None, bool_ret=False,
